@@ -427,6 +427,7 @@ func c09msg(c *Ctx, mc MsgCase) {
 		used := ds.steps - steps0
 		limit := 4000 + 400*nfields + 400*int(hi)
 		c.Prove(ds, "linear-time", B(used <= limit), nil)
+		c.lockLeak(ds, mc, input)
 		c.checkAllocs(ds, "Decode", in.Len, false, true, func(val func(*Term) uint64, j Judge) *ReplayReq {
 			return &ReplayReq{Steps: decodeSteps(mc, input(val)), Judge: j}
 		})
@@ -564,6 +565,40 @@ func c09unknownKey(c *Ctx, mod string, tab *TableSpec) {
 		}
 		c.res.Obl++
 		c.res.Dis++
+		c.lockLeak(ds, mc, input)
+		// the same frame once more in the state the first attempt left behind (look-up memos, negative caches,
+		// leaked locks): it must be refused again, without panic
+		twice := func(val func(*Term) uint64) []map[string]any {
+			st := decodeSteps(mc, input(val))
+			return append(st, step("op", "newbuf", "buf", "b2", "hex", hexOf(input(val))), step("op", "newmsg", "msg", "d2", "module", mc.Mod, "type", mc.Typ), step("op", "decode", "msg", "d2", "buf", "b2"))
+		}
+		buf2 := ds.newObj(&Obj{Kind: kBuffer, B: in, R: CI(0)})
+		d2 := h.freshReceiver(ds)
+		ds.frames = nil
+		e.pushCall(ds, h.dec, []Value{d2, &Ptr{Obj: buf2}}, nil)
+		for _, ds2 := range e.Run(ds) {
+			if ds2.cut != "" && strings.HasPrefix(ds2.cut, "deadlock") {
+				c.Prove(ds2, "second-attempt-returns", False, func(val func(*Term) uint64) *Violation {
+					return &Violation{Detail: "decoding the same unregistered frame again blocks: " + ds2.cut, Replay: &ReplayReq{Steps: append(decodeSteps(mc, input(val)), step("op", "lockprobe", "module", mc.Mod)), Judge: Judge{Kind: "hang"}}}
+				})
+				continue
+			}
+			if c.PathProblem(ds2, "Decode(unregistered key, second attempt)", func(val func(*Term) uint64, msg string) *Violation {
+				return &Violation{Obligation: "second-attempt-no-panic", Detail: "decoding the same unregistered frame a second time panics: " + msg, Model: map[string]any{"input_hex": hexOf(input(val))},
+					Replay: &ReplayReq{Steps: twice(val), Judge: Judge{Kind: "panic"}}}
+			}) {
+				continue
+			}
+			if isNilErr(ds2.ret) {
+				c.Prove(ds2, "second-attempt-is-an-error", False, func(val func(*Term) uint64) *Violation {
+					return &Violation{Detail: "the second decode of a frame with an unregistered discriminator succeeds", Model: map[string]any{"input_hex": hexOf(input(val))},
+						Replay: &ReplayReq{Steps: twice(val), Judge: Judge{Kind: "err_nil", Step: 5}}}
+				})
+				continue
+			}
+			c.res.Obl++
+			c.res.Dis++
+		}
 	}
 }
 
@@ -638,4 +673,22 @@ func decPrim(c *Ctx, p primInst, wantNoPanic, wantAlloc bool) {
 	c.Witness(s, "arbitrary input", func(val func(*Term) uint64) any {
 		return map[string]any{"fn": p.Name, "input_hex": hexOf(evalBytes(t.S, val))}
 	})
+}
+
+
+// lockLeak: a decode path that returns while still holding a lock (ghost lock state of the executor) makes every
+// later writer of that lock - and, behind a waiting writer, every later reader - block for ever: a hang.
+// Native confirmation: after the decode, every public Registry...Factory function of the module must return.
+func (c *Ctx) lockLeak(ds *State, mc MsgCase, input func(val func(*Term) uint64) []byte) {
+	for k, lv := range ds.locks {
+		if lv == 0 {
+			continue
+		}
+		k := k
+		c.Prove(ds, "no-lock-held-at-return", False, func(val func(*Term) uint64) *Violation {
+			st := append(decodeSteps(mc, input(val)), step("op", "lockprobe", "module", mc.Mod))
+			return &Violation{Detail: "Decode returns while still holding " + k + ": later registrations and decodes block", Model: map[string]any{"input_hex": hexOf(input(val))},
+				Replay: &ReplayReq{Steps: st, Judge: Judge{Kind: "hang"}}}
+		})
+	}
 }
